@@ -153,14 +153,22 @@ class GeminiClientProtocol(asyncio.Protocol):
             self._set_error(ValueError("Invalid response header: missing status"))
             return
 
-        try:
-            self.status = int(parts[0])
-        except ValueError:
+        # The status is exactly two ASCII digits (int() alone would also take
+        # "+20", " 20", "2_0" or non-ASCII digits)
+        status_text = parts[0]
+        if not (len(status_text) == 2 and status_text.isascii() and status_text.isdigit()):
             self._set_error(ValueError(f"Invalid status code: {parts[0]}"))
             return
 
-        # Meta is optional, default to empty string
-        self.meta = parts[1] if len(parts) > 1 else ""
+        # Meta is optional only for failure statuses (4x-6x); a bare CR or LF
+        # can never be part of it
+        meta = parts[1] if len(parts) > 1 else ""
+        if (len(parts) < 2 and int(status_text) < 40) or "\r" in meta or "\n" in meta:
+            self._set_error(ValueError(f"Invalid response header: {header_line!r}"))
+            return
+
+        self.status = int(status_text)
+        self.meta = meta
 
         # Validate status code range
         if not (10 <= self.status < 70):
@@ -404,13 +412,22 @@ class TitanClientProtocol(asyncio.Protocol):
             self._set_error(ValueError("Invalid response header: missing status"))
             return
 
-        try:
-            self.status = int(parts[0])
-        except ValueError:
+        # The status is exactly two ASCII digits (int() alone would also take
+        # "+20", " 20", "2_0" or non-ASCII digits)
+        status_text = parts[0]
+        if not (len(status_text) == 2 and status_text.isascii() and status_text.isdigit()):
             self._set_error(ValueError(f"Invalid status code: {parts[0]}"))
             return
 
-        self.meta = parts[1] if len(parts) > 1 else ""
+        # Meta is optional only for failure statuses (4x-6x); a bare CR or LF
+        # can never be part of it
+        meta = parts[1] if len(parts) > 1 else ""
+        if (len(parts) < 2 and int(status_text) < 40) or "\r" in meta or "\n" in meta:
+            self._set_error(ValueError(f"Invalid response header: {header_line!r}"))
+            return
+
+        self.status = int(status_text)
+        self.meta = meta
 
         if not (10 <= self.status < 70):
             self._set_error(ValueError(f"Status code out of range: {self.status}"))
